@@ -480,8 +480,8 @@ namespace xtl
     template <class OCTR, class OCTI, bool OB>
     inline auto xcomplex<CTR, CTI, B>::operator=(const xcomplex<OCTR, OCTI, OB>& rhs) noexcept -> self_type&
     {
-        m_real = rhs.m_real;
-        m_imag = rhs.m_imag;
+        m_real = rhs.real();
+        m_imag = rhs.imag();
         return *this;
     }
 
@@ -489,8 +489,8 @@ namespace xtl
     template <class OCTR, class OCTI, bool OB>
     inline auto xcomplex<CTR, CTI, B>::operator=(xcomplex<OCTR, OCTI, OB>&& rhs) noexcept -> self_type&
     {
-        m_real = std::move(rhs.m_real);
-        m_imag = std::move(rhs.m_imag);
+        m_real = std::move(rhs).real();
+        m_imag = std::move(rhs).imag();
         return *this;
     }
 
@@ -504,8 +504,8 @@ namespace xtl
     template <class OCTR, class OCTI, bool OB>
     inline auto xcomplex<CTR, CTI, B>::operator+=(const xcomplex<OCTR, OCTI, OB>& rhs) noexcept -> self_type&
     {
-        m_real += rhs.m_real;
-        m_imag += rhs.m_imag;
+        m_real += rhs.real();
+        m_imag += rhs.imag();
         return *this;
     }
 
@@ -513,8 +513,8 @@ namespace xtl
     template <class OCTR, class OCTI, bool OB>
     inline auto xcomplex<CTR, CTI, B>::operator-=(const xcomplex<OCTR, OCTI, OB>& rhs) noexcept -> self_type&
     {
-        m_real -= rhs.m_real;
-        m_imag -= rhs.m_imag;
+        m_real -= rhs.real();
+        m_imag -= rhs.imag();
         return *this;
     }
 
